@@ -12,14 +12,14 @@ use crate::common::geo::*;
 use crate::common::*;
 use proptest::prelude::*;
 use re::geom::vertex;
-use re::math::color::Color3f;
-use re::math::{pt2, pt3, rgb, vec2, vec3, Point2, Vary, Vec2, Vec3};
+use re::math::color::{Color3f, Color4f};
+use re::math::{pt2, pt3, rgb, rgba, vec2, vec3, Point2, Vary, Vec2, Vec3};
 use re::render::raster::tri_fill;
 use serde::{Deserialize, Serialize};
 use serde_json::{json, Value};
 
 pub const RULE: &str = "proptest: C04's triangle generator (shape and scale classes) x per-vertex reciprocal depth in [0.1,1] (equal / two-valued / arbitrary) \
-x attribute type {f32, Vec2, Vec3, Point2, Color3f, (f32,Vec2), (Vec3,(f32,Point2))} with values from {0, +-1, uniform, large offset}. \
+x attribute type {f32, Vec2, Vec3, Point2, Color3f, Color4f, (f32,Vec2), (Vec3,(f32,Point2))} with values from {0, +-1, uniform, large offset}. \
 Every fragment of every scanline is compared with the f64 plane oracle. Non-trivial = >= 3 fragments from a triangle with non-constant attribute and non-constant depth; distinct by case bit pattern.";
 
 #[derive(Clone, Debug, Serialize, Deserialize)]
@@ -38,6 +38,7 @@ pub fn ncomp(ty: &str) -> usize {
         "f32" => 1,
         "Vec2" | "Point2" => 2,
         "Vec3" | "Color3f" | "(f32,Vec2)" => 3,
+        "Color4f" => 4,
         "(Vec3,(f32,Point2))" => 6,
         _ => 0,
     }
@@ -67,6 +68,7 @@ pub fn frag_case() -> BoxedStrategy<FragCase> {
         2 => Just("Vec3"),
         1 => Just("Point2"),
         1 => Just("Color3f"),
+        1 => Just("Color4f"),
         2 => Just("(f32,Vec2)"),
         1 => Just("(Vec3,(f32,Point2))"),
     ];
@@ -77,7 +79,7 @@ pub fn frag_case() -> BoxedStrategy<FragCase> {
         .prop_map(|(tri, z, ty, mut a, constant, zexp)| {
             let k = 2f32.powi(zexp);
             let mut z = z.map(|v| v * k);
-            if ty == "Color3f" {
+            if ty == "Color3f" || ty == "Color4f" {
                 // ZDiv for colours is the identity (affine interpolation by design, DESIGN D-e):
                 // exercised where both readings coincide, i.e. with equal depth at all vertices
                 z = [z[0], z[0], z[0]];
@@ -183,6 +185,14 @@ impl Attr for Color3f {
         self.0.to_vec()
     }
 }
+impl Attr for Color4f {
+    fn make(c: &[f32]) -> Self {
+        rgba(c[0], c[1], c[2], c[3])
+    }
+    fn comps(&self) -> Vec<f32> {
+        self.0.to_vec()
+    }
+}
 impl<A: Attr, B: Attr> Attr for (A, B) {
     fn make(c: &[f32]) -> Self {
         let n = A::make(c).comps().len();
@@ -197,7 +207,7 @@ impl<A: Attr, B: Attr> Attr for (A, B) {
 
 fn run_typed<A: Attr>(c: &FragCase) -> Result<Vec<FragObs>, String> {
     let p = c.tri.pts();
-    let is_color = c.ty == "Color3f";
+    let is_color = c.ty == "Color3f" || c.ty == "Color4f";
     catch(|| {
         let mut out = vec![];
         // render() hands tri_fill `attrib.z_div(w)`; here z = 1/w is the given
@@ -229,6 +239,7 @@ pub fn fragments_of(c: &FragCase) -> Result<Vec<FragObs>, String> {
         "Vec3" => run_typed::<Vec3>(c),
         "Point2" => run_typed::<Point2>(c),
         "Color3f" => run_typed::<Color3f>(c),
+        "Color4f" => run_typed::<Color4f>(c),
         "(f32,Vec2)" => run_typed::<(f32, Vec2)>(c),
         "(Vec3,(f32,Point2))" => run_typed::<(Vec3, (f32, Point2))>(c),
         t => Err(format!("unknown attribute type {t}")),
@@ -259,7 +270,7 @@ pub fn check(c: &FragCase, obs: &mut Obs) -> Check {
         Err(p) => fail!("tri_fill-panic", "tri_fill/fragments panicked on finite input: {p}"),
     };
     let z: [f64; 3] = c.z.map(|x| x.0 as f64);
-    let is_color = c.ty == "Color3f";
+    let is_color = c.ty == "Color3f" || c.ty == "Color4f";
     // pre-divided attribute values exactly as handed to tri_fill (f32 products)
     let az: Vec<[f64; 3]> = (0..n)
         .map(|k| [0, 1, 2].map(|i| if is_color { c.a[i][k].0 as f64 } else { (c.a[i][k].0 * c.z[i].0) as f64 }))
@@ -404,6 +415,7 @@ pub fn check(c: &FragCase, obs: &mut Obs) -> Check {
         "Vec3" => "attr:Vec3",
         "Point2" => "attr:Point2",
         "Color3f" => "attr:Color3f",
+        "Color4f" => "attr:Color4f",
         "(f32,Vec2)" => "attr:(f32,Vec2)",
         _ => "attr:(Vec3,(f32,Point2))",
     });
@@ -435,6 +447,92 @@ pub fn check(c: &FragCase, obs: &mut Obs) -> Check {
     Ok(())
 }
 
+// ------------------------------------------------------------------ scan() as an Iterator
+
+/// `scan` returns an `Iterator` of scanlines. However a caller advances it (`next`, `nth`, `skip`, `step_by`, `last`),
+/// scanline number i is the same scanline: same row, same span, same fragments (positions, depths, attributes).
+#[derive(Clone, Debug, Serialize, Deserialize)]
+pub struct ScanCase {
+    pub y: [X; 2],
+    /// left and right end points at y0 and y1: (x, z, a)
+    pub l: [[X; 3]; 2],
+    pub r: [[X; 3]; 2],
+    /// 0 skip(k), 1 step_by(k+1), 2 repeated nth(k), 3 last
+    pub mode: u8,
+    pub k: u8,
+}
+
+fn scan_case() -> BoxedStrategy<ScanCase> {
+    let end = || (screen_coord(24.0), 0.1f32..=1.0, -1.0f32..=1.0);
+    (screen_coord(24.0), 0.5f32..24.0, [end(), end()], [end(), end()], 0u8..4, 0u8..6, any::<bool>())
+        .prop_map(|(y0, h, l, r, mode, k, apex)| {
+            let fix = |a: (f32, f32, f32), b: (f32, f32, f32)| if a.0 <= b.0 { (a, b) } else { (b, a) };
+            let (l0, r0) = fix(l[0], r[0]);
+            let (l1, r1) = fix(l[1], r[1]);
+            // an apex on top (l0 == r0), as tri_fill's upper half, half of the time
+            let r0 = if apex { l0 } else { r0 };
+            let t = |p: (f32, f32, f32)| xs([p.0, p.1, p.2]);
+            ScanCase { y: xs([y0, y0 + h]), l: [t(l0), t(l1)], r: [t(r0), t(r1)], mode, k }
+        })
+        .boxed()
+}
+
+type Row = (usize, usize, usize, Vec<[u32; 4]>);
+
+fn check_scan(c: &ScanCase, obs: &mut Obs) -> Check {
+    use re::render::raster::{scan, Scanline, ScreenPt};
+    let v = |p: [X; 3], y: X| -> (ScreenPt, f32) { (pt3(p[0].0, y.0, p[1].0), p[2].0 * p[1].0) };
+    let (l0, l1, r0, r1) = (v(c.l[0], c.y[0]), v(c.l[1], c.y[1]), v(c.r[0], c.y[0]), v(c.r[1], c.y[1]));
+    ensure!(c.y[0].0 < c.y[1].0 && c.y[1].0 <= 64.0 && c.mode < 4, "bad-case", "row range");
+    let plain = |mut sl: Scanline<f32>| -> Row {
+        let (y, a, b) = (sl.y, sl.xs.start, sl.xs.end);
+        let fr: Vec<[u32; 4]> = sl.fragments().take(4096).map(|f| [f.pos.x().to_bits(), f.pos.y().to_bits(), f.pos.z().to_bits(), f.var.to_bits()]).collect();
+        (y, a, b, fr)
+    };
+    let mk = || scan(c.y[0].0..c.y[1].0, &l0..&l1, &r0..&r1);
+    let all: Vec<Row> = match catch(|| mk().take(4096).map(plain).collect()) {
+        Ok(r) => r,
+        Err(p) => fail!("scan-panic", "scan(..) panicked while iterating: {p}"),
+    };
+    let k = c.k as usize;
+    let (got, want): (Vec<Row>, Vec<Row>) = match c.mode {
+        0 => (catch(|| mk().skip(k).take(4096).map(plain).collect()).map_err(|p| Fail::new("scan-panic", p))?, all.iter().skip(k).cloned().collect()),
+        1 => (catch(|| mk().step_by(k + 1).take(4096).map(plain).collect()).map_err(|p| Fail::new("scan-panic", p))?, all.iter().step_by(k + 1).cloned().collect()),
+        2 => {
+            let g = catch(|| {
+                let mut it = mk();
+                let mut v = vec![];
+                while let Some(sl) = it.nth(k) {
+                    v.push(plain(sl));
+                    if v.len() > 4096 {
+                        break;
+                    }
+                }
+                v
+            })
+            .map_err(|p| Fail::new("scan-panic", p))?;
+            (g, all.iter().skip(k).step_by(k + 1).cloned().collect())
+        }
+        _ => (catch(|| mk().last().map(plain).into_iter().collect()).map_err(|p| Fail::new("scan-panic", p))?, all.last().cloned().into_iter().collect()),
+    };
+    let how = ["skip(k)", "step_by(k+1)", "repeated nth(k)", "last()"][c.mode as usize];
+    ensure!(got.len() == want.len(), "scan-iterator-inconsistent", "{how} with k = {k} yields {} scanlines, plain iteration gives {} of {}", got.len(), want.len(), all.len());
+    for (i, (g, w)) in got.iter().zip(&want).enumerate() {
+        ensure!(
+            g == w,
+            "scan-iterator-inconsistent",
+            "{how} with k = {k}: scanline {i} is row {} span {}..{} ({} fragments, first {:?}); the same scanline reached by next() is row {} span {}..{} ({} fragments, first {:?})",
+            g.0, g.1, g.2, g.3.len(), g.3.first().map(|f| f.map(f32::from_bits)),
+            w.0, w.1, w.2, w.3.len(), w.3.first().map(|f| f.map(f32::from_bits))
+        );
+    }
+    obs.class(["scan:skip", "scan:step_by", "scan:nth", "scan:last"][c.mode as usize]);
+    if all.len() >= 2 && k >= 1 {
+        obs.nontrivial(hash_of(&(c.y, c.l, c.r, c.mode, c.k)));
+    }
+    Ok(())
+}
+
 pub fn run(cx: &mut Ctx) {
     cx.assume("coordinates are finite and non-negative (DESIGN D-b); reciprocal depths in [0.1, 1] (w ratio <= 10:1)");
     cx.assume("0.5 % of the per-component vertex range (+ a rounding floor of 2e-4 of the magnitude) is asserted for triangles with smallest altitude >= 1 px and coordinates <= 128 px; thinner or larger triangles add 2*pos_err(S)*z-ratio/altitude of the range, pos_err(S) = max(6.7e-8 S^2, 5e-7 S) px; where that exceeds the range only finiteness is asserted (DESIGN D-c)");
@@ -444,13 +542,19 @@ pub fn run(cx: &mut Ctx) {
     cx.assume("exact slivers (long edge exactly vertical / base exactly horizontal within 3 ulps of a pixel-centre line, 1..5 ulps across, 17..60 px long, coordinates < 70): the edge the fragments are measured from is never stepped, so the 0.5 % bound is asserted without the D-c widening");
     let n = cx.n(40_000, 1_000_000);
     cx.prop_check("exact-slivers", n, exact_sliver_case, |c, obs| check(c, obs));
+    let n = cx.n(60_000, 1_500_000);
+    cx.prop_check("scan-iterator", n, scan_case, |c, obs| check_scan(c, obs));
 }
 
 pub fn replay(sub: &str, case: &Value) -> Check {
     let mut obs = Obs::new();
     obs.freeze();
     match sub {
-        "fragments" => {
+        "scan-iterator" => {
+            let c: ScanCase = serde_json::from_value(case.clone()).map_err(|e| Fail::new("bad-replay", e.to_string()))?;
+            check_scan(&c, &mut obs)
+        }
+        "fragments" | "exact-slivers" => {
             let c: FragCase = serde_json::from_value(case.clone()).map_err(|e| Fail::new("bad-replay", e.to_string()))?;
             check(&c, &mut obs)
         }
